@@ -119,6 +119,7 @@ claim("C09", "call-graph reachability + panic-site inventory; interprocedural ty
       "token, that no loop of the parser can go round without consuming (at end of file: without leaving), that no routine re-enters itself on an "
       "unchanged look-ahead, that a routine which panics for some next-terminal kinds (an unreachable!() arm of a dispatch on the kind) is reached "
       "only with the other kinds; the same over the lexer with the next character as look-ahead (every loop takes a character, match_terminal advances)." +
+      " The look-ahead window is never popped at end of file (same interpreter with a pop at TerminalEndOfFile counted as a panic; one pop_front, dominated by a refill; window filled at construction), so the window accesses cannot fail." +
       DECIDES + " Stack depth on nested input, termination of the formatter, and totality of semantic/lowering diagnostics on garbage are not decided.",
       "trusted: rustc MIR, fact dumper; for (b) calls that take &mut Parser outside the non-consuming list are assumed to consume; for (c) the token window moves only in Parser::take_raw/advance and the character cursor only in Lexer::take (R10.1), a call that cannot be interpreted is reported; class-U inventory rows carry no safety claim",
       "DESIGN.md section 4, C09")
@@ -145,7 +146,9 @@ claim("C11", "path rules on MIR: must-pass-through inside loops, control depende
       "kind with TerminalComma, TerminalEmpty, TerminalSemicolon or TerminalColonColon; use-merging and sorting are called only under their "
       "configuration flags; nodes with ignored formatting keep their original text; a routine that rewrites a list of child nodes either moves "
       "whole nodes only or selects / drops / duplicates / re-parses nodes under a has_only_whitespace_trivia guard covering every affected node "
-      "(over the whole rewritten list, or per node with failing nodes left intact)." + DECIDES +
+      "(over the whole rewritten list, or per node with failing nodes left intact); a break point adds a trailing comma only where the written "
+      "one is dropped; the optional `;` after a block-like statement is dropped only on the word of the parser's post-operator table applied "
+      "to the first token of the next statement." + DECIDES +
       " Idempotence and re-parsability of the output (line-breaking search) are not decided.",
       "trusted: rustc MIR, fact dumper; assumes LineBuilder::push_str/push_comment append their argument",
       "DESIGN.md section 4, C11")
